@@ -300,9 +300,12 @@ func Parse(filename string, src io.Reader) (*Grammar, error) {
 
 		// grammar → name decls
 		case 0:
+			// A grammar without declarations: decls → ε yields no value.
+			decls, _ := rhs[1].Val.([]Decl)
+
 			return &Grammar{
 				Name:     rhs[0].Val.(string),
-				Decls:    rhs[1].Val.([]Decl),
+				Decls:    decls,
 				Position: rhs[0].Pos,
 			}, nil
 		}
